@@ -10,7 +10,8 @@ Anchors
                              _ABNF.field_name/field_value/reason_phrase
   tornado/http1connection.py HTTP1Connection.write_headers: start line `utf8("HTTP/1.1 %d %s")`, header
                              lines `name + ": " + value` encoded latin-1, the forbidden-byte guard over
-                             every line (CR, LF and — after the `fix:` commit for D9 — NUL), `\r\n` join.
+                             every line (CR, LF and — after the `fix:` commit for D9 — NUL), the token check
+                             on every header name (second `fix:` commit), `\r\n` join.
 
 `str` = list of code points, `bytes` = list of naturals < 256.  The request is `POST / HTTP/1.1`
 (keep-alive, so write_headers adds no Connection header; no ETag logic).
@@ -50,18 +51,18 @@ abbrev Headers := List (Str × List Str)
 
 def hContains (h : Headers) (name : Str) : Bool := h.any (·.1 == normalize name)
 
-/-- `__setitem__` : no validation at all -/
-def hSet (h : Headers) (name value : Str) : Headers :=
-  let n := normalize name
-  if h.any (·.1 == n) then h.map (fun p => if p.1 == n then (n, [value]) else p) else h ++ [(n, [value])]
-
-def hDel (h : Headers) (name : Str) : Headers := h.filter (·.1 != normalize name)
-
 /-- `_ABNF.tchar` -/
 def isTchar (c : Nat) : Bool :=
   C25.isAlnum c || c == 33 || c == 35 || c == 36 || c == 37 || c == 38 || c == 39 || c == 42 || c == 43
     || c == 45 || c == 46 || c == 94 || c == 95 || c == 96 || c == 124 || c == 126
 def isToken (s : Str) : Bool := !s.isEmpty && s.all isTchar
+
+/-- `__setitem__` : no validation at all (names are checked at `write_headers`, see `writeHeadersG`) -/
+def hSet (h : Headers) (name value : Str) : Headers :=
+  let n := normalize name
+  if h.any (·.1 == n) then h.map (fun p => if p.1 == n then (n, [value]) else p) else h ++ [(n, [value])]
+
+def hDel (h : Headers) (name : Str) : Headers := h.filter (·.1 != normalize name)
 
 /-- `HTTPHeaders.add(name, value)` -/
 def hAdd (h : Headers) (name value : Str) : Except Err Headers :=
@@ -208,13 +209,19 @@ def joinLines : List Str → Str
   | [] => crlf
   | l :: rest => l ++ crlf ++ joinLines rest
 
-/-- `HTTP1Connection.write_headers` (server side, no chunking, empty body) -/
+/-- `HTTP1Connection.write_headers` (server side, no chunking, empty body).  After the forbidden-byte guard
+comes — since the `fix:` commit for the header-name injection — the check that every header NAME is an RFC 9110
+token (`_ABNF.field_name`), `ValueError` otherwise.  (In the tree as found there was no such check and
+`HTTPHeaders.__setitem__` validates nothing: `set_header("Set-Cookie: a=b; x", "v")` put the line
+`Set-Cookie: a=b; x: v` on the wire.) -/
 def writeHeadersG (forb : Nat → Bool) (code : Int) (reason : Str) (h : Headers) : Except Err (List Str) :=
   let hl := (hAll h).map headerLine
   if !hl.all latin1Ok then .error .unicodeEncode
   else
     let lines := statusLine code reason :: hl
-    if !lines.all (lineOkG forb) then .error .valueError else .ok lines
+    if !lines.all (lineOkG forb) then .error .valueError
+    else if !(hAll h).all (fun p => isToken p.1) then .error .valueError
+    else .ok lines
 
 /-- `finish()` → `flush()` → `write_headers`: the lines of the header block, or the exception -/
 def finishG (forb : Nat → Bool) (st : St) : Except Err (List Str) :=
